@@ -64,7 +64,7 @@ fn main() {
             *b = rng as u8;
         }
         let mut cur = Cursor::new(&genome);
-        let (p, _) = gen_position_from(&mut cur, (i % 17) as usize);
+        let (p, _) = gen_position_from(&mut cur, (i as usize) % owlverif::gen::positions::SOURCES.len());
         let b = match Board::try_from(raw_from_ref(&p)) {
             Ok(b) => b,
             Err(_) => continue,
